@@ -20,7 +20,7 @@ def hay():
     k=R.choice([0,1,2,3,4,5,6,8,10,14])
     pool=R.choice([list('ab'),list('abc'),list('aab1 '),list('abc \n'),ALPHA,list('aAbB'),list('ab\r\n'),list('aä𝄞b')])
     return ''.join(R.choice(pool) for _ in range(k))
-LIT=list('aaabbbc')+list('ABxyz01_ -')+['ä','𝄞','ß','\n']
+LIT=list('aaabbbc')+list('ABxyz01_ -')+['ä','𝄞','ß','\n','Q','E']
 ESC=['\\d','\\w','\\s','\\D','\\W','\\S','\\b','\\B','\\.','\\\\','\\n','\\t','\\r','\\a','\\f','\\v','\\A','\\z','\\x61','\\x{62}','\\u0063','\\U00000061','\\x{1D11E}','\\-','\\#','\\ ','\\/','\\<','\\>','\\b{start}','\\b{end}','\\b{start-half}','\\b{end-half}','\\+','\\*','\\?','\\(','\\)','\\[','\\]','\\{','\\}','\\^','\\$','\\|','\\&','\\~','\\%','\\"']
 BADESC=['\\1','\\p','\\pL','\\e','\\q','\\x','\\xg1','\\x{','\\x{}','\\x{110000}','\\x{d800}','\\u12','\\b{foo}','\\b{','\\b{start','\\ä','\\Z','\\','\\uD800','\\U00110000','\\x{00000000061}','\\b{1}']
 CLSITEM=['a','b','c','a-c','a-b','0-9','A-Z','x','_','\\d','\\w','\\s','\\D','\\W','\\S','\\n','\\-','\\]','\\\\','ä','ä-𝄞','[:alpha:]','[:digit:]','[:^alpha:]','[:space:]','[:word:]','[:punct:]','[:upper:]','[:lower:]','[:alnum:]','[:xdigit:]','-','.','^','$','|','(','*','\\x61','\\x61-\\x63','X-c','X-`a-c',' ','&','~','\\b','\\.']
@@ -105,6 +105,7 @@ def num(x): return 'N%016x'%struct.unpack('>Q',struct.pack('>d',x))[0]
 FNS=['re_is_match','re_find','re_capture','re_replace']
 def esc(s):
     return ''.join(('\\'+c if c in '\\.+*?()|[]{}^$#&-~' else c) for c in s)
+HIST=[]
 for _ in range(n):
     f=R.choice(FNS)
     h=hay()
@@ -113,6 +114,10 @@ for _ in range(n):
         lit=h[R.randrange(0,len(h)+1):][:k] if h and R.random()<0.7 else ''.join(R.choice(ALPHA) for _ in range(k))
         p=esc(lit)
     else: p=pattern()
+    # 1 in 7: a pattern used at least 64 calls ago comes back (with a haystack it matches differently from its successors)
+    if len(HIST)>70 and R.random()<0.14: p=R.choice(HIST[:-64])
+    HIST.append(p)
+    if len(HIST)>400: HIST.pop(R.randrange(0,200))
     args=[S(h),S(p)]
     if f=='re_replace':
         if R.random()<0.85:
